@@ -503,6 +503,12 @@ func init() {
 		gen: func(g *gen) history.Query {
 			q := history.Query{ID: g.opt(), With: g.jid(), Start: g.time(true), End: g.time(true), BeforeID: g.opt(), AfterID: g.opt(),
 				Limit: g.u64(), Last: g.boolean(), PageID: g.opt(), Reverse: g.boolean()}
+			if g.chance(1, 40) {
+				q.Start = g.farTime()
+			}
+			if g.chance(1, 40) {
+				q.End = g.farTime()
+			}
 			for n := g.count(3); n > 0; n-- {
 				q.IDs = append(q.IDs, g.ntext())
 			}
@@ -512,6 +518,8 @@ func init() {
 		tr:         func(v *history.Query) xml.TokenReader { return v.TokenReader() },
 		wx:         func(v *history.Query, w xmlstream.TokenWriter) (int, error) { return v.WriteXML(w) },
 		dec:        true,
+		rt:         func(v *history.Query) bool { return inRange(v.Start) && inRange(v.End) },
+		rtNote:     "year-outside-0000-9999",
 		canon: func(v *history.Query) string {
 			return (&kv{}).s("id", v.ID).j("with", v.With).t("start", v.Start).t("end", v.End).s("before-id", v.BeforeID).s("after-id", v.AfterID).
 				ss("ids", v.IDs).u("limit", v.Limit).b("last", v.Last).s("page", v.PageID).b("reverse", v.Reverse).String()
@@ -589,6 +597,50 @@ func init() {
 			if v.XMLName != (xml.Name{Space: muc.NSConf, Local: "x"}) {
 				v.XMLName = xml.Name{Space: muc.NSUser, Local: "x"}
 			}
+			if !v.Continue {
+				v.Thread = ""
+			}
+			return v
+		},
+	})
+
+	// the two exported writers called directly (whatever XMLName says): MarshalDirect always
+	// writes a direct invitation, MarshalMediated always a mediated one
+	inviteGen := func(g *gen) muc.Invitation {
+		i := muc.Invitation{Continue: g.boolean(), JID: g.njid(), Password: g.opt(), Reason: g.opt(), Thread: g.opt()}
+		switch g.intn(3) {
+		case 1:
+			i.XMLName = xml.Name{Space: muc.NSConf, Local: "x"}
+		case 2:
+			i.XMLName = xml.Name{Space: muc.NSUser, Local: "x"}
+		}
+		return i
+	}
+	inviteCanon := func(v muc.Invitation) string {
+		return (&kv{}).s("ns", v.XMLName.Space).b("continue", v.Continue).j("jid", v.JID).s("password", v.Password).s("reason", v.Reason).s("thread", v.Thread).String()
+	}
+	register(spec[inviteDirect]{name: "muc.Invitation.MarshalDirect",
+		witnesses: []inviteDirect{{muc.Invitation{Reason: "r"}}},
+		gen:       func(g *gen) inviteDirect { return inviteDirect{inviteGen(g)} },
+		tr:        func(v *inviteDirect) xml.TokenReader { return v.Invitation.MarshalDirect() },
+		dec:       true,
+		canon:     func(v *inviteDirect) string { return inviteCanon(v.Invitation) },
+		norm: func(v inviteDirect) inviteDirect {
+			v.XMLName = xml.Name{Space: muc.NSConf, Local: "x"}
+			if !v.Continue {
+				v.Thread = ""
+			}
+			return v
+		},
+	})
+	register(spec[inviteMediated]{name: "muc.Invitation.MarshalMediated",
+		witnesses: []inviteMediated{{muc.Invitation{Reason: "r", XMLName: xml.Name{Space: muc.NSConf, Local: "x"}}}},
+		gen:       func(g *gen) inviteMediated { return inviteMediated{inviteGen(g)} },
+		tr:        func(v *inviteMediated) xml.TokenReader { return v.Invitation.MarshalMediated() },
+		dec:       true,
+		canon:     func(v *inviteMediated) string { return inviteCanon(v.Invitation) },
+		norm: func(v inviteMediated) inviteMediated {
+			v.XMLName = xml.Name{Space: muc.NSUser, Local: "x"}
 			if !v.Continue {
 				v.Thread = ""
 			}
@@ -711,9 +763,11 @@ func init() {
 
 	// ---- bits of binary, file metadata, hashes, trust messages -----------------------------------
 	register(spec[bin.Data]{name: "bin.Data",
-		witnesses: []bin.Data{{Data: []byte("A")}, {Data: []byte("AB"), Type: "text/plain"}, {CID: "c", MaxAge: 400 * time.Millisecond}},
+		witnesses: []bin.Data{{Data: []byte("A")}, {Data: []byte("AB"), Type: "text/plain"}, {CID: "c", MaxAge: 400 * time.Millisecond}, {CID: "c", MaxAge: math.MaxInt64}},
 		gen: func(g *gen) bin.Data {
-			ages := []time.Duration{0, time.Second, 90 * time.Second, 86400 * time.Second, 1500 * time.Millisecond, 400 * time.Millisecond, 500 * time.Millisecond, 2500 * time.Millisecond, -time.Second}
+			// extreme numbers: the largest duration, the largest whole number of seconds, the smallest duration
+			ages := []time.Duration{0, time.Second, 90 * time.Second, 86400 * time.Second, 1500 * time.Millisecond, 400 * time.Millisecond, 500 * time.Millisecond, 2500 * time.Millisecond, -time.Second,
+				math.MaxInt64, math.MaxInt64 / time.Second * time.Second, math.MinInt64, 1, 1 << 53 * time.Microsecond}
 			return bin.Data{CID: g.opt(), MaxAge: ages[g.intn(len(ages))], NoCache: g.chance(1, 4), Type: g.opt(), Data: g.bytes()}
 		},
 		marshalPtr: true,
@@ -729,7 +783,12 @@ func init() {
 				// a negative age is no hint at all
 				v.MaxAge = 0
 			} else {
-				v.MaxAge = time.Duration(math.RoundToEven(v.MaxAge.Seconds())) * time.Second
+				// … and an age of more seconds than a Duration holds is the largest Duration
+				if sec := math.RoundToEven(v.MaxAge.Seconds()); sec > float64(math.MaxInt64/time.Second) {
+					v.MaxAge = math.MaxInt64
+				} else {
+					v.MaxAge = time.Duration(sec) * time.Second
+				}
 			}
 			return v
 		},
@@ -738,6 +797,9 @@ func init() {
 		witnesses: []file.Meta{{Name: "f"}, {Name: "f", Date: time.Date(2020, 1, 2, 3, 4, 5, 600000000, time.UTC), Hash: crypto.HashOutput{Hash: crypto.SHA256, Out: []byte{1, 2}}}},
 		gen: func(g *gen) file.Meta {
 			m := file.Meta{MediaType: g.text(), Name: g.text(), Date: g.time(true), Size: g.u64(), Width: g.u64(), Height: g.u64(), Length: g.u64()}
+			if g.chance(1, 40) {
+				m.Date = g.farTime()
+			}
 			if !g.chance(1, 6) {
 				m.Hash = crypto.HashOutput{Hash: g.hash(), Out: append([]byte{1}, g.bytes()...)}
 			}
@@ -747,6 +809,8 @@ func init() {
 		tr:         func(v *file.Meta) xml.TokenReader { return v.TokenReader() },
 		wx:         func(v *file.Meta, w xmlstream.TokenWriter) (int, error) { return v.WriteXML(w) },
 		dec:        true,
+		rt:         func(v *file.Meta) bool { return inRange(v.Date) },
+		rtNote:     "year-outside-0000-9999",
 		canon: func(v *file.Meta) string {
 			return (&kv{}).s("media-type", v.MediaType).s("name", v.Name).t("date", v.Date).u("size", v.Size).
 				s("hash", hashName(v.Hash.Hash)).x("out", v.Hash.Out).u("width", v.Width).u("height", v.Height).u("length", v.Length).String()
@@ -847,4 +911,16 @@ func encToksShort(t []xml.Token) string {
 		}
 	}
 	return sb.String()
+}
+
+// inviteDirect / inviteMediated: muc.Invitation written through one of its two exported
+// writers called directly; decoding is the type's own UnmarshalXML.
+type inviteDirect struct{ muc.Invitation }
+type inviteMediated struct{ muc.Invitation }
+
+func (v *inviteDirect) UnmarshalXML(d *xml.Decoder, start xml.StartElement) error {
+	return v.Invitation.UnmarshalXML(d, start)
+}
+func (v *inviteMediated) UnmarshalXML(d *xml.Decoder, start xml.StartElement) error {
+	return v.Invitation.UnmarshalXML(d, start)
 }
